@@ -350,6 +350,7 @@ func (ex *Exec) runRegion(fr *Frame, st0 *State, start *ssa.BasicBlock, allowed 
 					return
 				}
 				ex.checkInvariant(fr, s, fi.loops[to], "inv-step")
+				ex.frameObligations(fr, s, ex.contract, "loop-frame")
 				return
 			}
 			if allowed != nil && !allowed[to] {
@@ -483,7 +484,9 @@ func (ex *Exec) enterLoop(fr *Frame, st *State, li *loopInfo) *State {
 	}
 	sort.Strings(hn)
 	for _, n := range hn {
-		out.setHeap(n, Fresh(fmt.Sprintf("%s@L%d", n, ord), heapSorts[n]))
+		nh := Fresh(fmt.Sprintf("%s@L%d", n, ord), heapSorts[n])
+		out.setHeap(n, nh)
+		ex.assumeLoopFrame(out, n, nh)
 	}
 	if allocMod {
 		na := Fresh("alloc@L", RefSort)
@@ -770,6 +773,16 @@ func (ex *Exec) execBlock(fr *Frame, st *State, b *ssa.BasicBlock, rets *[]retRe
 
 func (ex *Exec) execAlloc(fr *Frame, st *State, x *ssa.Alloc) {
 	et := x.Type().(*types.Pointer).Elem()
+	if at, ok := et.Underlying().(*types.Array); ok {
+		// arrays live in the element family from the start, so that slicing them aliases
+		r := st.allocRef()
+		names, sorts := elemFamilies(at.Elem())
+		for i, n := range names {
+			st.setHeap(n, Store(st.heap(n, sorts[i]), r, zeroOf(sorts[i].Elem)))
+		}
+		fr.regs[x] = PtrV{Loc{Kind: LArr, Arr: r, Root: et, Ty: et}, x.Type()}
+		return
+	}
 	if x.Heap {
 		r := st.allocRef()
 		l := Loc{Kind: LHeap, Root: et, Ref: r, Ty: et}
@@ -993,7 +1006,7 @@ func (ex *Exec) convert(st *State, v Value, t types.Type) Value {
 			r := st.allocRef()
 			name := "E|uint8|"
 			srt := ArraySort(RefSort, ArraySort(IntSort, BVSort(8)))
-			row := Fresh("str2bytes", ArraySort(IntSort, BVSort(8)))
+			row := App("strrow", ArraySort(IntSort, BVSort(8)), x.S)
 			st.setHeap(name, Store(st.heap(name, srt), r, row))
 			s := x.S
 			ex.addLazy(&LazyForall{Guard: True, Sort: IntSort, Desc: "[]byte(string) contents", Body: func(k *Term) *Term {
@@ -1092,6 +1105,9 @@ func (ex *Exec) indexAddr(fr *Frame, st *State, x *ssa.IndexAddr) Value {
 		ex.nilCheck(fr, st, b, x.Pos())
 		at := b.L.Ty.Underlying().(*types.Array)
 		ex.check("bounds", "", x.Pos(), st, And(SLe(BVi(0, 64), i), SLt(i, BVi(at.Len(), 64))))
+		if b.L.Kind == LArr {
+			return PtrV{Loc{Kind: LElem, Root: at.Elem(), Arr: b.L.Arr, Idx: i, Ty: at.Elem()}, x.Type()}
+		}
 		l := b.L
 		l.Path = append(append([]PathElem{}, l.Path...), PathElem{Idx: i})
 		l.Ty = at.Elem()
@@ -1183,6 +1199,9 @@ func (ex *Exec) slice(fr *Frame, st *State, x *ssa.Slice) Value {
 // Arrays that get sliced are relocated on first slicing: their storage becomes a backing
 // array in the element family and the cell records the alias.
 func (ex *Exec) arrayAsSlice(fr *Frame, st *State, p PtrV, at *types.Array) SlV {
+	if p.L.Kind == LArr {
+		return SlV{p.L.Arr, BVi(0, 64), BVi(at.Len(), 64), BVi(at.Len(), 64), types.NewSlice(at.Elem())}
+	}
 	if p.L.Kind != LCell || len(p.L.Path) != 0 {
 		unsup("slicing an array that is not a whole local variable")
 	}
